@@ -314,6 +314,8 @@ def c11(proj, rep, tier):
     rep.floor('D4 MeasureGate role obligations', n, 3)
     n = measure.m1(proj, rep)
     rep.floor('M1 bit-order obligation', n, 1)
+    n = measure.m3(proj, rep)
+    rep.floor('M3 Born-rule / collapse structure obligations', n, 5)
 
 
 def c18(proj, rep, tier):
